@@ -1,9 +1,200 @@
 (* IntegrationSystem — end-to-end theorems about the WHOLE-SYSTEM integration model (theories/SystemAll.v):
-   sso-proxy (ProxyAll.serve) and sso-auth (AuthAll.serve) composed, the identity provider and the upstream
-   backends being the only scripted peers. Only statements here; each is closed by [exact <lemma>]. *)
-From V Require Import Base Validators SystemAll SystemAll_proofs.
+   sso-proxy (ProxyAll.serve) and sso-auth (AuthAll.serve) composed; the identity provider and the upstream
+   backends are the only scripted peers. Every back-channel answer the proxy model consumes is computed by the
+   authenticator model from ITS state and the IdP's answers; every sealed value / MAC either service accepts is
+   one the other (or itself) issued earlier in the history.
 
+   Quantification: ALL deployments (any upstreams / routes / allow rules / slugs / TTLs; any authenticator
+   configuration; the client credentials configured at the proxy need not be the authenticator's), ALL
+   histories (lists of events: any request to the proxy, any request to the authenticator — back-channel
+   paths included —, clock ticks, IdP changes; induction over the event list, no bound), ALL IdP scripts;
+   re_match / re_replace (Go's regexp) and lower (strings.ToLower) are universally quantified functions.
+   Hypotheses, all explicit: [wf] the authenticator's cookie key and auth-code key differ; for the revocation
+   theorems [wired] (the proxy addresses the authenticator by its configured host under provider slugs the
+   authenticator routes) and a non-negative validity TTL.
+   Only statements here; each is closed by [exact <lemma>]. *)
+From V Require Import Base Validators SystemAll SystemAll_proofs.
+From V Require ProxyCore ProxyCore_proofs ProxyAll ProxyAll_proofs AuthAll AuthAll_proofs ReqHeaders Hostmux Url.
+From V Require Import CorrBase Corr_IntSystem Corr_IntSystem_proofs.
+Require Coq.Strings.String.
+Import Coq.Strings.String.StringSyntax.
+Local Open Scope Z_scope.
+
+(* Symbolic sealing: a cookie value opens under the proxy's key only if the proxy issued it. *)
 Theorem SYS_opens_only_issued : forall st v s,
   p_opens st v = Some s -> exists r, In r (st_p st) /\ pr_val r = v /\ pr_s r = s.
 Proof. exact p_opens_issued. Qed.
 Print Assumptions SYS_opens_only_issued.
+
+(* The provenance invariant holds along every history: every authenticator cookie descends from a login the
+   IdP vouched for (same e-mail, lifetime = instant of that login + SESSION_LIFETIME); every code was minted
+   for such a cookie's session and handed to a URI in a configured root domain that carried a MAC the PROXY
+   computed; every proxy session descends from a redeemed code (same e-mail), is bound to the Host of its login
+   callback, passed that upstream's login gate, and its validity deadline was set at most V before by a login,
+   a positive answer, or an outage-grace extension at an instant the back channel answered 429 / 503. *)
+Theorem SYS_invariant : forall re_match re_replace lower sd t0 evs st' tr,
+  wf sd -> run re_match re_replace lower sd (init t0) evs = (st', tr) ->
+  Inv re_match lower sd st' /\ forall s e o, In (s, e, o) tr -> Inv re_match lower sd s.
+Proof.
+  intros re_match re_replace lower sd t0 evs st' tr Hwf Hr.
+  destruct (run_inv re_match re_replace lower sd Hwf evs (init t0) st' tr Hr (inv_init re_match lower sd t0)) as [H1 H2].
+  split; [exact H1|]. intros s e o Hin. exact (proj1 (H2 s e o Hin)).
+Qed.
+Print Assumptions SYS_invariant.
+
+(* SYS_identity_vouched.  Over all histories: whenever a backend receives a request, it is the backend of the
+   upstream the Host routes to; on a skip-auth path no identity header is asserted; and whenever it carries
+   X-Forwarded-Email e (at the moment the request is signed and forwarded) then [identity_chain]:
+     - the presented cookie is one the proxy sealed, for e, bound to this Host, within its lifetime
+       (login time <= now <= login time + L);
+     - e passed THIS upstream's login gate;
+     - it descends from a login at which the proxy redeemed a code c with the client credentials the
+       authenticator is configured with (as the authenticator reads them off the proxy's own request);
+     - c was minted EARLIER by the authenticator's /sign_in for a session of e and handed to a URI that passed
+       validRedirectURI (in a configured root domain under every RFC 3986 reading) and carried a MAC computed
+       by the PROXY, under a secret equal to the authenticator's, over that URI and a time at most 5 min old;
+     - that session descends from an EARLIER code exchange at the IdP whose verified e-mail is e (C10's
+       idp_vouched: token endpoint 200 + tokens, id_token payload / userinfo e-mail verified), admitted by the
+       authenticator's own e-mail rule.
+   (Composition of C01/C03/C06/C11/C13 with C07/C08/C09/C10.) *)
+Theorem SYS_identity_vouched : forall re_match re_replace lower sd t0 evs st' tr,
+  wf sd -> run re_match re_replace lower sd (init t0) evs = (st', tr) ->
+  forall st q bk lk sc o bv, In (st, EvProxy q bk lk sc, OProxy o) tr -> P.oc_backend (po_out o) = Some bv ->
+  exists u, P.route_ext re_match (P.dp_ups (sd_p sd)) (P.rq_host q) = Some u /\
+    P.bk_target bv = Hostmux.target re_replace (P.rq_host q) (P.up_hm u) /\
+    (P.skip_hit re_match u q = true -> ProxyAll_proofs.identity_absent (P.bk_handler bv)) /\
+    (forall e, In e (ReqHeaders.h_get ReqHeaders.k_xfe (P.bk_handler bv)) ->
+       P.skip_hit re_match u q = false /\ identity_chain lower sd st q u e).
+Proof. exact identity_vouched. Qed.
+Print Assumptions SYS_identity_vouched.
+
+(* what [identity_chain] says, unfolded (so that the statement above can be read without the proofs file) *)
+Theorem SYS_identity_chain_unfold : forall lower sd st q u e,
+  identity_chain lower sd st q u e <->
+  exists p c g v,
+    presented_p sd st q = Some p /\ In p (st_p st) /\ PC.s_email (pr_s p) = e /\ pr_host p = P.rq_host q /\
+    pr_login p <= st_now st /\ st_now st <= pr_login p + P.dp_L (sd_p sd) /\
+    (exists ans, login_gate lower (Hostmux.u_policy (P.up_hm u)) e ans = true) /\
+    In c (st_c st) /\ pr_code p = Some (cr_val c) /\ pr_grant p = Some g /\ B.s_email (cr_s c) = e /\
+    (exists code, creds_presented sd (P.slug_of (sd_p sd) u) (P.rq_host q) code) /\
+    cr_at c <= pr_login p /\ pr_login p <= B.s_refresh_dl (cr_s c) /\
+    G.valid_redirect_uri (cr_uri c) (A.root_domains (sd_a sd)) = true /\
+    (forall sch ui h port rest, Url.rfc_split (cr_uri c) sch ui h port rest ->
+       G.in_domain (Url.rfc_hostname h) (A.d_proxy_domains (sd_a sd))) /\
+    (exists m t, cr_sig c = Some m /\ In m (st_m st) /\ sd_psecret sd = A.d_client_secret (sd_a sd) /\
+       cr_uri c ++ G.dec t = mr_uri m ++ G.dec (mr_ts m) /\ cr_at c * A.ns - t * A.ns <= G.ttl_ns) /\
+    cr_grant c = Some g /\ nth_error (st_v st) g = Some v /\ vr_email v = e /\ vr_at v <= cr_at c /\
+    ((exists ts, AuthAll_proofs.idp_vouched (vr_kind v) (vr_an v) (vr_idp_code v) ts /\ T.s_email ts = vr_email v) /\
+     F.rule_passes lower (A.fcfg (sd_a sd)) (vr_email v) = true /\ vr_email v <> []).
+Proof. intros. reflexivity. Qed.
+Print Assumptions SYS_identity_chain_unfold.
+
+(* SYS_revocation_propagates, at full strength, is FALSE of the faithful model: see [revocation_strict] in the
+   proofs file — "after the grant is revoked at t (validate / refresh answer revoked from then on) no backend is
+   reached on the authenticated path with that session's descendants after t + V, outage grace aside".
+   Witness (SysEx.evs_inflight, confirmed against the real code by the driver's corpus): a code minted BEFORE
+   the revocation is redeemed 200 s AFTER it (V = 60): /redeem consults neither the IdP nor the cookie, the code
+   stays valid until the refresh deadline it carries, and the proxy session minted from it is served. *)
+Theorem SYS_revocation_propagates_refuted : ~ revocation_strict.
+Proof. exact revocation_strict_refuted. Qed.
+Print Assumptions SYS_revocation_propagates_refuted.
+
+(* ... and the strongest true statement: once grant g is revoked at t (by the IdP's operator, or through a
+   sign-out the IdP confirmed), a request presenting a cookie of that lineage reaches a backend with identity
+   at [now] only if
+     now <= t + V, or
+     the proxy login itself happened after t — the redemption of a code minted before t — and now <= login + V, or
+     the validity deadline was set (or the due check was answered) at an instant t' in (t, now], now <= t' + V,
+     at which the authenticator / the IdP was unavailable or the back channel answered 429 / 503 (outage grace). *)
+Theorem SYS_revocation_propagates_partial : forall re_match re_replace lower sd t0 evs1 s1 tr1 evs2 s2 tr2 g t,
+  wf sd -> wired re_match sd -> 0 <= P.dp_V (sd_p sd) ->
+  run re_match re_replace lower sd (init t0) evs1 = (s1, tr1) -> SystemAll_proofs.revoked_at s1 g t ->
+  run re_match re_replace lower sd s1 evs2 = (s2, tr2) ->
+  forall st q bk lk sc o bv e p,
+    In (st, EvProxy q bk lk sc, OProxy o) tr2 -> P.oc_backend (po_out o) = Some bv ->
+    In e (ReqHeaders.h_get ReqHeaders.k_xfe (P.bk_handler bv)) ->
+    presented_p sd st q = Some p -> pr_grant p = Some g ->
+    st_now st <= t + P.dp_V (sd_p sd) \/
+    (t < pr_login p /\ st_now st <= pr_login p + P.dp_V (sd_p sd)) \/
+    (exists t', In t' (st_out (fst (proxy_step re_match re_replace lower sd st q bk lk sc))) /\
+                t < t' /\ t' <= st_now st /\ st_now st <= t' + P.dp_V (sd_p sd)).
+Proof. exact revocation_propagates. Qed.
+Print Assumptions SYS_revocation_propagates_partial.
+
+(* "grace only while the authenticator / IdP is unavailable, never when it answers revoked": authenticator
+   reachable, IdP up, grant revoked — a request of that lineage that reaches a backend with identity had NO
+   check due (both deadlines still ahead); a due refresh or revalidation ends the session. *)
+Theorem SYS_revoked_answer_ends_session : forall re_match re_replace lower sd st q bk sc bv e p g t,
+  wired re_match sd -> Inv re_match lower sd st ->
+  P.oc_backend (proxy_outcome re_match re_replace lower sd st q bk LinkUp sc) = Some bv ->
+  In e (ReqHeaders.h_get ReqHeaders.k_xfe (P.bk_handler bv)) ->
+  presented_p sd st q = Some p -> pr_grant p = Some g -> SystemAll_proofs.revoked_at st g t -> i_down (st_idp st) = false ->
+  st_now st <= PC.s_refresh_dl (pr_s p) /\ st_now st <= PC.s_valid_dl (pr_s p).
+Proof. intros re_match re_replace lower sd st q bk sc bv e p g t Hw. exact (revoked_answer_ends_session re_match re_replace lower sd Hw st q bk sc bv e p g t). Qed.
+Print Assumptions SYS_revoked_answer_ends_session.
+
+(* how a grant gets revoked: the operator at the IdP ... *)
+Theorem SYS_idp_revocation : forall re_match re_replace lower sd st g,
+  SystemAll_proofs.revoked_at (fst (step re_match re_replace lower sd st (EvIdp (IRevoke g)))) g (st_now st).
+Proof. exact idp_revoke_revokes. Qed.
+Print Assumptions SYS_idp_revocation.
+
+(* ... or SYS_signout_propagates: after a successful sign-out at the authenticator for a session (C19: the cookie
+   is cleared only after the IdP confirmed the revocation of the session's own token; the IdP honours its own
+   revocation), every proxy session minted from that authenticator session's grant stops being served at its
+   next revalidation, i.e. at most V after the sign-out — with the same two exceptions as above (a code minted
+   before the sign-out and redeemed after it; outage grace). *)
+Theorem SYS_signout_propagates : forall re_match re_replace lower sd t0 evs1 s1 tr1 q0 x0 sc0 a g tok evs2 s2 tr2,
+  wf sd -> wired re_match sd -> 0 <= P.dp_V (sd_p sd) ->
+  run re_match re_replace lower sd (init t0) evs1 = (s1, tr1) ->
+  AuthAll_proofs.has_clear (A.r_sess_ops (auth_resp lower sd s1 q0 x0 sc0)) ->
+  In (A.CRevoke tok) (A.r_calls (auth_resp lower sd s1 q0 x0 sc0)) ->
+  auth_pres sd s1 q0 = Some a -> ar_grant a = Some g ->
+  run re_match re_replace lower sd (fst (step re_match re_replace lower sd s1 (EvAuth q0 x0 sc0))) evs2 = (s2, tr2) ->
+  forall st q bk lk sc o bv e p,
+    In (st, EvProxy q bk lk sc, OProxy o) tr2 -> P.oc_backend (po_out o) = Some bv ->
+    In e (ReqHeaders.h_get ReqHeaders.k_xfe (P.bk_handler bv)) ->
+    presented_p sd st q = Some p -> pr_grant p = Some g ->
+    st_now st <= st_now s1 + P.dp_V (sd_p sd) \/
+    (st_now s1 < pr_login p /\ st_now st <= pr_login p + P.dp_V (sd_p sd)) \/
+    (exists t', In t' (st_out (fst (proxy_step re_match re_replace lower sd st q bk lk sc))) /\
+                st_now s1 < t' /\ t' <= st_now st /\ st_now st <= t' + P.dp_V (sd_p sd)).
+Proof. exact signout_propagates. Qed.
+Print Assumptions SYS_signout_propagates.
+
+(* SYS_no_cross_talk, first half, is FALSE of the faithful model: "a code minted for upstream / redirect A is
+   never redeemable into a proxy session bound to host B" — [code_bound_to_host] in the proofs file.
+   Witness (SysEx.evs_cross, confirmed against the real code by the driver's corpus): the authenticator's /redeem
+   never looks at redirect_uri (sso.go:108 "TODO: remove ... unused by authenticator"), codes are sealed sessions
+   valid under every provider slug, so a code handed to app.ex.com's callback is redeemed by the callback of
+   app2.ex.com into a session bound to app2.ex.com. *)
+Theorem SYS_no_cross_talk_code_refuted : ~ code_bound_to_host.
+Proof. exact code_bound_to_host_refuted. Qed.
+Print Assumptions SYS_no_cross_talk_code_refuted.
+
+(* ... and what IS true (with SYS_identity_vouched: the session on B still needs the IdP-vouched e-mail to pass
+   B's own login gate): a proxy session yields identity headers only on the Host of the login callback it
+   descends from, at the backend of the upstream that Host routes to, whichever cookie a client presents where. *)
+Theorem SYS_no_cross_talk_partial : forall re_match re_replace lower sd t0 evs st' tr,
+  wf sd -> run re_match re_replace lower sd (init t0) evs = (st', tr) ->
+  forall st q bk lk sc o bv p, In (st, EvProxy q bk lk sc, OProxy o) tr -> P.oc_backend (po_out o) = Some bv ->
+  ReqHeaders.h_get ReqHeaders.k_xfe (P.bk_handler bv) <> [] -> presented_p sd st q = Some p ->
+  P.rq_host q = pr_host p /\
+  exists u, P.route_ext re_match (P.dp_ups (sd_p sd)) (pr_host p) = Some u /\
+            P.bk_target bv = Hostmux.target re_replace (pr_host p) (P.up_hm u) /\
+            (exists ans, login_gate lower (Hostmux.u_policy (P.up_hm u)) (PC.s_email (pr_s p)) ans = true).
+Proof. exact session_host_bound. Qed.
+Print Assumptions SYS_no_cross_talk_partial.
+
+(* Non-vacuity: a concrete two-upstream deployment (SysEx) and histories that
+   (1) log in through both services and reach the backend with the IdP-vouched identity;
+   (2) after a revocation at the IdP lose it at the next revalidation (403, no backend);
+   (3) after a confirmed sign-out at the authenticator lose it likewise;
+   and the deployment satisfies [wf] and [wired]. *)
+Theorem SYS_nonvacuous :
+  SysEx.last_view SysEx.evs_served = ([bs "bob@ex.com"], 200%N) /\
+  (SysEx.last_view SysEx.evs_revoked = ([], 403%N) /\ SystemAll_proofs.revoked_at (fst (SysEx.runex SysEx.evs_revoked)) 0 1100) /\
+  (SysEx.last_view SysEx.evs_signout = ([], 403%N) /\ SystemAll_proofs.revoked_at (fst (SysEx.runex SysEx.evs_signout)) 0 1000) /\
+  wf SysEx.sd /\ wired SysEx.ex_match SysEx.sd.
+Proof. exact (conj ex_login_reaches_backend (conj ex_revocation_ends_it (conj ex_signout_ends_it (conj SysEx.wf_ex ex_wired)))). Qed.
+Print Assumptions SYS_nonvacuous.
